@@ -14,7 +14,8 @@ CHECKS = {
         technique="SMT (z3): bounded NFA/CFG language equivalence between the shipped serialized ATNs and automata built from blackbird.g4, over symbolic characters / token sequences",
         text="Bounded language equivalence decided by z3 between every shipped automaton (Python, C++, .interp) and an independent reading of "
              "blackbird.g4: per lexer rule for all strings <= M code points, first-token function, per parser rule RHS <= K symbols, CFG-level "
-             "from `expression` and `start` for all token sequences <= N; artefact identity by direct comparison. A generated artefact is a "
+             "from `expression` and `start` for all token sequences <= N; artefact identity by direct comparison. The generated parser *code* (not encodable) is run on every sentence "
+             "the solver enumerates (AllSAT on the grammar's CFG encoding) in three regions around the decisions that need more than one token of lookahead, on RHS-variant expansions and on mutants. A generated artefact is a "
              "translation of the grammar, so translation validation of the artefact against its source is the fitting level.",
         note="Trusted: antlr4 runtime semantics of an ATN, the g4-subset reader (validated each run on solver witnesses, the repo corpus and "
              "solver-generated sentences/mutants against the real lexer/parser), z3. Bounded: nothing is claimed beyond M/K/N. C++ runtime not exercised.",
